@@ -65,7 +65,7 @@ run)
 all)
     for d in $V/seeded/*/; do
         n=$(basename $d)
-        checks=$(python3 -c "import json,sys; print(' '.join(json.load(open('$d/meta.json')).get('checks', [])))")
+        checks=$(python3 -c "import json,sys; m=json.load(open('$d/meta.json')); print('' if m.get('obsolete') else ' '.join(m.get('checks', [])))")
         [ -n "$checks" ] && $0 run $n $checks
     done
     ;;
